@@ -47,6 +47,37 @@ def l0_one(chk, rng):
         rr.destroy()
 
 
+def l1_layout_one(chk, sseed):
+    """transfer level: pre-existing partial alias sets (a by-hash object on disk without its canonical name, as after a
+    crash or when a byte-identical sibling was mirrored earlier) -> every reported by-hash variant ends with all aliases"""
+    from . import l1
+    rng = random.Random(sseed)
+    sc = l1.gen_scenario(rng)
+    real, files = l1.run_real(sc)
+    rfs = {e["path"]: e for e in real["fs"]}
+    for vj in real["downloaded"]:
+        aliases = l1.all_paths_of(vj)
+        inos = set()
+        for p in aliases:
+            e = rfs.get(p)
+            if e is None:
+                chk.violation("alias-missing:transfer", l1.scenario_to_json(sc), f"variant {'/'.join(vj['path'])} reported obtained but {p} does not exist")
+                break
+            inos.add(e["ino"])
+        else:
+            if len(inos) > 1:
+                contents = {rfs[p]["data"] for p in aliases}
+                if len(contents) > 1:
+                    chk.violation("alias-content-differs:transfer", l1.scenario_to_json(sc), f"aliases of {'/'.join(vj['path'])} differ in content")
+        if vj["byhash"]:
+            chk.count("byhash_variants_checked_at_transfer_level")
+        else:
+            if any("by-hash" in p.split("/") for p in aliases):
+                chk.violation("byhash-created-when-off", l1.scenario_to_json(sc), "by-hash alias for a variant without by-hash")
+    chk.evaluated(None)
+    chk.traces += 1
+
+
 def e2e_one(chk, sseed):
     rng = random.Random(sseed)
     w = common.World(rng, 1, select_all=True)
@@ -132,6 +163,8 @@ def e2e_one(chk, sseed):
 def run(chk, tier, rng):
     for i in range(80 if tier == "quick" else 2000):
         l0_one(chk, random.Random(f"C16-{chk.seed}-{i}"))
+    for i in range(250 if tier == "quick" else 5000):
+        l1_layout_one(chk, f"C16l-{chk.seed}-{i}")
     for i in range(60 if tier == "quick" else 1500):
         e2e_one(chk, f"C16e-{chk.seed}-{i}")
     chk.assumptions += ["two index files with identical content in one directory share their by-hash target (finding F-C05a); the "
